@@ -115,6 +115,11 @@ def cmp_values(kind: str, tier: str):
             (-1, 1, 1, 0, 0, 0, 0), (-1, 12, 31, 0, 0, 0, 0), (-2, 6, 1, 0, 0, 0, 0), (0, 1, 1, 0, 0, 0, 0), (1, 1, 1, 0, 0, 0, 0),
             (12020, 1, 1, 0, 0, 0, 0), (1900, 2, 28, 0, 0, 0, 0), (1900, 3, 1, 0, 0, 0, 0), (2000, 2, 29, 12, 30, 0, 500000000),
             (2020, 7, 31, 0, 0, 0, 0), (2020, 8, 1, 0, 0, 0, 0), (2020, 4, 30, 23, 59, 59, 0), (2020, 5, 1, 0, 0, 0, 0),
+            # the turn of February in year 0000 and in negative years (multiples of 400 and their neighbours): the
+            # proleptic calendar needs FLOOR division there
+            (0, 2, 28, 0, 0, 0, 0), (0, 2, 29, 0, 0, 0, 0), (0, 2, 29, 12, 0, 0, 0), (0, 2, 29, 24, 0, 0, 0), (0, 3, 1, 0, 0, 0, 0),
+            (-400, 2, 29, 0, 0, 0, 0), (-400, 3, 1, 0, 0, 0, 0), (-399, 2, 28, 24, 0, 0, 0), (-399, 3, 1, 0, 0, 0, 0),
+            (-1, 2, 28, 0, 0, 0, 0), (-1, 3, 1, 0, 0, 0, 0), (-401, 12, 31, 0, 0, 0, 0), (-400, 1, 1, 0, 0, 0, 0),
         ]
         for b in base:
             vals.append(b + (NO_OFFSET,))
@@ -122,7 +127,7 @@ def cmp_values(kind: str, tier: str):
             for off in (0, 60, -60, 840, -840, 330):
                 vals.append(b + (off,))
         if tier == "quick":
-            vals = vals[:25] + vals[25::3]
+            vals = vals[:len(base)] + vals[len(base)::3]
         return [dict(zip(("y", "mo", "d", "h", "mi", "s", "f", "off"), v)) for v in vals]
     if kind == "time":
         base = [(0, 0, 0, 0), (0, 0, 0, 1), (0, 0, 1, 0), (11, 59, 59, 999999999), (12, 0, 0, 0), (23, 59, 59, 0), (23, 59, 59, 999999999), (12, 30, 0, 500)]
